@@ -36,7 +36,18 @@ Definition wc_missing : lquad := lq_of iA iB [32; 120] None.
 Definition wd_doc : list item := [IStmt P0 (TIri iA) (TIri iB) (TLit [LPlain 120] SNone) None].
 Definition wd_missing : lquad := lq_of iA iB [120] None.
 
-(* (e) a language-tagged literal in Turtle *)
+(* (e) a language-tagged literal in Turtle: right since fix dbe5296; `clean_turtle_term_old` is the cleaning
+   function before that repair (kept for the regression lemma) *)
+Definition clean_turtle_term_old (term0 : str) : str :=
+  let term := trim term0 in
+  if starts_with sLTLT term then term
+  else if starts_with_c cLT term && ends_with_c cGT term then strip1 term
+  else if starts_with_c cDQ term && ends_with_c cDQ term then
+    match decode_literal term with
+    | Some (v, []) => v
+    | _ => strip1 term
+    end
+  else tm_char cDQ term.
 Definition we_doc : list item := [IStmt P0 (TIri iA) (TIri iB) (TLit [LPlain 120] (SLang [101;110])) None].
 Definition we_missing : lquad := lq_of iA iB [120; 64; 101; 110] None.
 
